@@ -7,18 +7,12 @@ From HP Require Import Base.Bytes Base.Utf8 Base.Num Model.Elements Model.Dates 
   Model.Reporters Spec.PresentationSpec.
 Local Open Scope N_scope.
 
-Definition ellipsis : N := 8230.
-
 (** *** 4. the shortening rule *)
 Theorem shorten_off_identity : forall (s : bytes) (n : nat), shorten false s n = s.
 Proof. reflexivity. Qed.
 
 Theorem shorten_on : forall (s : bytes) (n : nat), shorten true s n = truncate_middle s n.
 Proof. reflexivity. Qed.
-
-(** length of the kept prefix, as in the code *)
-Definition keep_front (slen w : nat) : nat :=
-  if Nat.even slen then Nat.div (w - 1 + 1) 2 else Nat.div (w - 1) 2.
 
 Lemma keep_front_bounds : forall slen w, (3 <= w)%nat ->
   (1 <= keep_front slen w)%nat /\ (keep_front slen w <= w - 1)%nat
